@@ -642,7 +642,7 @@ def gen(seed, run, tier='quick'):
         operands = [p['s1'] for p in probes]
         for _ in range(hr.choice([0, 0, 2, 4])):
             if syms:
-                k = hr.randrange(12)
+                k = hr.randrange(13)
                 # mostly on operands of the probes; the allocating kinds
                 # mostly on operands of quantized types
                 pool_ = quantized if quantized and k in (4, 6, 7, 8, 9) \
@@ -815,6 +815,19 @@ def run_world(arg):
             elif k == 11:
                 sum([1 * u, 2 * u], 0 * u)
                 (5 * u) - (5 * u)
+            elif k == 12:
+                # a burst of several hundred distinct operations (whatever
+                # they yield): bounded memos start evicting
+                us = list(env.units.values())
+                us = us[:12] + us[-12:]
+                for x in us:
+                    for y in us:
+                        for fn in (lambda: x * y, lambda: x / y,
+                                   lambda: (2 * x) * (3 * y)):
+                            try:
+                                fn()
+                            except Exception:   # noqa
+                                pass
             else:
                 (3 * u) + (2 * v) < (5 * u)
         except Exception as e:      # noqa
